@@ -75,6 +75,14 @@ func renderVal(v interface{}) string {
 			return "b1"
 		}
 		return "b0"
+	case []interface{}:
+		// session scripts use one-element slices of a string as their only slice-typed values
+		if len(x) == 1 {
+			if e, ok := x[0].(string); ok {
+				return "l" + hex.EncodeToString([]byte(e))
+			}
+		}
+		return fmt.Sprintf("?%T", v)
 	default:
 		return fmt.Sprintf("?%T", v)
 	}
@@ -107,6 +115,12 @@ func parseVal(s string) interface{} {
 		return n
 	case 'b':
 		return s[1:] == "1"
+	case 'l':
+		b, err := hex.DecodeString(s[1:])
+		if err != nil {
+			panic(err)
+		}
+		return []interface{}{string(b)}
 	}
 	panic("bad value " + s)
 }
